@@ -52,6 +52,8 @@ def _run_mutant(args):
         return idx, 'anchor-lost', str(e), []
     except Exception as e:  # pragma: no cover
         return idx, 'crash', '%s: %s' % (type(e).__name__, e), []
+    if res.errors and not res.findings:
+        return idx, 'anchor-lost', '; '.join(res.errors), []
     new = [f.ident for f in res.findings if f.ident not in base_idents]
     gone = [i for i in base_idents if i not in
             [f.ident for f in res.findings]]
@@ -145,6 +147,7 @@ def check(prop, tier, seed, jobs, mutants=True, quiet=False):
     extra.update(mut)
     extra['known_findings_matched'] = [f.ident for f, _ in known_hits]
     extra['repo'] = REPO
+    extra['analysis_errors'] = list(res.errors)
     # obligations whose verdict is a finding are not discharged
     wall = time.time() - t0
     path = report.write_evidence(
@@ -184,9 +187,11 @@ def check(prop, tier, seed, jobs, mutants=True, quiet=False):
         rp = report.write_replay(f, n)
         print('FINDING %s %s at %s: %s' % (prop, f.ident, f.where, f.message))
         print('VIOLATION property=%s replay=%s' % (prop, rp))
+    for e in res.errors:
+        print('ANALYSIS-ERROR property=%s %s' % (prop, e))
     if not quiet:
         print('evidence: %s (%.2fs)' % (path, wall))
-    return (1 if violations else 0), res, mut
+    return (1 if violations else (2 if res.errors else 0)), res, mut
 
 
 def replay(path):
